@@ -125,7 +125,15 @@ def run_case(case):
                 if any(e["rule"] == "h" for e in p["events"]):
                     key = "hard_fault_in_%s_%s" % (name, "panic" if (b"panicked at" in p["err"]) else ("clean_error" if p["rc"] != 0 else "unaffected"))
                     obs[key] = obs.get(key, 0) + 1
-        return {"ok": True, "stats": st}
+        # narrow relaxation under a failing environment: a process that was hit by the injected error may FAIL; if every
+        # process that was hit reports success, nothing may be wrong downstream and the ordinary oracle applies.
+        excused = False
+        for p in [r, comp] + tr + exe:
+            if any(e["rule"] == "h" for e in p["events"]) and p["rc"] != 0:
+                excused = True
+        if excused or any(p["timeout"] for p in procs):
+            return {"ok": True, "stats": st}
+        st.setdefault("probes", {})["hard_fault_absorbed_then_judged"] = 1
     if any(p["timeout"] for p in procs):
         if r["timeout"] and (not exe or exe[0]["timeout"]):
             st["nontrivial"] = False
